@@ -88,5 +88,8 @@ func normalizeCase(c *Case) {
 			l1map(p.Wps)
 		}
 		l1list(c.Pool.Methods)
+		for i := range c.Pool.Reqs {
+			normalizeOp(&c.Pool.Reqs[i])
+		}
 	}
 }
